@@ -45,3 +45,9 @@ package gmqtt
 //@ spec func msgBytes(m *Message, v byte) uint32 = ?
 //@ func (*Message).TotalBytes trusted pure
 //@ ensures result == msgBytes(m, version)
+
+// IsExpired: the session's lifetime counted from the time it was connected.
+//@ func (*Session).IsExpired
+//@ props C05
+//@ requires [C05] s != nil
+//@ ensures [C05] result == (s.ConnectedAt + int(s.ExpiryInterval) * 1000000000 < now)
